@@ -334,6 +334,7 @@ def builtinSig (name : String) : Option Sig :=
     | "__freeze" => some { fixed := [.gostr] }
     | "Math" | "JSON" | "Object" => some { fixed := [] }
     | "vpIdent" => some (anyN 1)      -- harness-supplied template function: returns its argument
+    | "__Range" => some { fixed := [], variadic := some .num }
     | _ => none
 
 def boolOf (o : Option Bool) : M Bool := ofOpt o "comparison outside domain"
@@ -554,6 +555,19 @@ def callBuiltin (name : String) (args : List Val) : M Val := do
             pure (k, arr)
         allocMap { items := items, order := [] }
       | "vpIdent", [x] => pure (convertRaw x)
+      | "__Range", args => do
+        -- runtime.go __Range: one argument m: 0..m-1; two: o..m-1; fresh array on every call
+        let ns ← args.mapM fun (v : Val) => match v with
+          | .N q => pure q
+          | _ => (domainErr "range argument" : M Rat)
+        match ns with
+        | [] | [_] | _ :: _ :: _ =>
+          let (o, m) : Int × Int := match ns with
+            | [m] => (0, Fn.ratTrunc m)
+            | o :: m :: _ => (Fn.ratTrunc o, Fn.ratTrunc m)
+            | [] => (0, 0)
+          if ns.isEmpty then throwE (.panic "runtime error: index out of range") else
+          allocArr ((List.range (m - o).toNat).map fun (i : Nat) => Val.N ((o + (i : Int) : Int) : Rat))
       | "Math", [] => pure (.host "Math")
       | "JSON", [] => pure (.host "JSON")
       | _, _ => domainErr s!"function {name}"
